@@ -54,6 +54,21 @@ Definition agrees (c : case) : bool :=
       list_eqb Nat.eqb (pending_of tr (length (regs s))) pend
   end.
 
+(* The recorded finding F18 is: the observation table is keyed by CRC-64 of the token, so two tokens with the
+   SAME CRC-64 are confused.  A foreign-token delivery is attributed to that finding (class 7) only when every
+   foreign token delivered really has the CRC-64 of the registration's token; any other foreign delivery keeps
+   class 2 and is reported. *)
+Definition crc_collision_out (toks : list (list Z)) (o : out) : bool :=
+  match o with
+  | Cb i tok _ _ => match nth_error toks i with
+                    | Some t => bytes_eqb t tok || (crc64 t =? crc64 tok)
+                    | None => false end
+  | _ => true
+  end.
+Definition only_crc_collisions (tr : trace) : bool :=
+  let toks := reg_tokens tr in
+  forallb (fun x => forallb (crc_collision_out toks) (snd x)) tr.
+
 (* C03, last sentence, for observe registrations (class 9, judged on the OBSERVED history and the observed
    final liveness map): a registration i that succeeded (RegRet i 0) and was never cancelled must still be
    registered at the end when a later registration with the same token was refused as a duplicate
@@ -72,7 +87,7 @@ Definition displaced (tr : trace) (lm : list bool) : bool :=
                       bytes_eqb (nth i toks []) (nth j toks [])) (seq 0 (length toks)))
     (seq 0 (length toks)).
 
-(* property classes (bin/props.py): 1 not-fresher-delivered, 2 foreign-token, 3 registration-outcome,
+(* property classes (bin/props.py): 1 not-fresher-delivered, 2 foreign-token, 7 foreign-token with the same CRC-64 (F18), 3 registration-outcome,
    4 delivered-after-end, 5 fresher-refused (predicate only), 6 malformed case *)
 Definition pclass (c : case) : N :=
   match c with
@@ -85,7 +100,8 @@ Definition pclass (c : case) : N :=
   | Hist wire evs outs lm pend =>
       if Nat.eqb (length evs) (length outs) then
         let c := c08_class (combine evs outs) in
-        if N.eqb c 0 then (if displaced (combine evs outs) lm then 9%N else 0%N) else c
+        if N.eqb c 0 then (if displaced (combine evs outs) lm then 9%N else 0%N)
+        else if N.eqb c 2 && only_crc_collisions (combine evs outs) then 7%N else c
       else 6%N
   end.
 
